@@ -100,31 +100,32 @@ func PktKey(p *mqttref.Packet) string {
 
 // Scenario describes one execution.
 type Scenario struct {
-	Client           string    `json:"client"` // reconnect | retry
-	Cfg              BrokerCfg `json:"cfg"`
-	AlwaysResub      bool      `json:"always_resub,omitempty"`
-	Clean            bool      `json:"clean,omitempty"` // CONNECT with clean session
-	Chunk            int       `json:"chunk,omitempty"`
-	LateWriteOK      bool      `json:"late_write_ok,omitempty"`
-	SlowReturn       int       `json:"slow_return,omitempty"`       // transport Write returns late (see memnet.Conn.SlowReturn)
-	CloseStyle       string    `json:"close_style,omitempty"`       // error after a local Close: "" memnet's own, "pipe" io.ErrClosedPipe (net.Pipe), "net" *net.OpError{net.ErrClosed} (TCP)
-	CloseLinger      int       `json:"close_linger,omitempty"`      // transport Close returns late (see memnet.Conn.CloseLinger)
-	PingDelayMs      int       `json:"ping_delay_ms,omitempty"`     // the broker answers PINGREQ this much later
-	OnErrorPublishes bool      `json:"onerror_publishes,omitempty"` // the OnError callback publishes a status message through the client
-	Pre              []Step    `json:"pre,omitempty"`               // submitted before Connect
-	Steps            []Step    `json:"steps,omitempty"`             // submitted after Connect returned
-	Faults           []Fault   `json:"faults,omitempty"`
-	DialFail         []int     `json:"dial_fail,omitempty"` // 1-based dial attempts that fail
-	OnConnect        [][]InMsg `json:"on_connect,omitempty"`
-	WaitBaseMs       int       `json:"wait_base_ms,omitempty"`
-	WaitMaxMs        int       `json:"wait_max_ms,omitempty"`
-	TimeoutMs        int       `json:"timeout_ms,omitempty"`      // connect/ping timeout of the reconnect client (0: 2 s; <0: library default)
-	RespMs           int       `json:"resp_timeout_ms,omitempty"` // RetryClient.ResponseTimeout
-	PingMs           int       `json:"ping_ms,omitempty"`
-	SlowActive       bool      `json:"slow_active,omitempty"` // the ConnState(Active) callback yields for a while (steering)
-	NoSentinel       bool      `json:"no_sentinel,omitempty"`
-	KeepOpen         bool      `json:"keep_open,omitempty"`    // do not disconnect at the end: the caller samples and calls Finish
-	RichConnect      bool      `json:"rich_connect,omitempty"` // CONNECT with will, credentials and keep-alive (must be identical on every connection)
+	Client               string    `json:"client"` // reconnect | retry
+	Cfg                  BrokerCfg `json:"cfg"`
+	AlwaysResub          bool      `json:"always_resub,omitempty"`
+	Clean                bool      `json:"clean,omitempty"` // CONNECT with clean session
+	Chunk                int       `json:"chunk,omitempty"`
+	LateWriteOK          bool      `json:"late_write_ok,omitempty"`
+	SlowReturn           int       `json:"slow_return,omitempty"`            // transport Write returns late (see memnet.Conn.SlowReturn)
+	CloseStyle           string    `json:"close_style,omitempty"`            // error after a local Close: "" memnet's own, "pipe" io.ErrClosedPipe (net.Pipe), "net" *net.OpError{net.ErrClosed} (TCP)
+	CloseLinger          int       `json:"close_linger,omitempty"`           // transport Close returns late (see memnet.Conn.CloseLinger)
+	PingDelayMs          int       `json:"ping_delay_ms,omitempty"`          // the broker answers PINGREQ this much later
+	DialerPresetsHandler bool      `json:"dialer_presets_handler,omitempty"` // BaseClients come out of the Dialer with a handler already set
+	OnErrorPublishes     bool      `json:"onerror_publishes,omitempty"`      // the OnError callback publishes a status message through the client
+	Pre                  []Step    `json:"pre,omitempty"`                    // submitted before Connect
+	Steps                []Step    `json:"steps,omitempty"`                  // submitted after Connect returned
+	Faults               []Fault   `json:"faults,omitempty"`
+	DialFail             []int     `json:"dial_fail,omitempty"` // 1-based dial attempts that fail
+	OnConnect            [][]InMsg `json:"on_connect,omitempty"`
+	WaitBaseMs           int       `json:"wait_base_ms,omitempty"`
+	WaitMaxMs            int       `json:"wait_max_ms,omitempty"`
+	TimeoutMs            int       `json:"timeout_ms,omitempty"`      // connect/ping timeout of the reconnect client (0: 2 s; <0: library default)
+	RespMs               int       `json:"resp_timeout_ms,omitempty"` // RetryClient.ResponseTimeout
+	PingMs               int       `json:"ping_ms,omitempty"`
+	SlowActive           bool      `json:"slow_active,omitempty"` // the ConnState(Active) callback yields for a while (steering)
+	NoSentinel           bool      `json:"no_sentinel,omitempty"`
+	KeepOpen             bool      `json:"keep_open,omitempty"`    // do not disconnect at the end: the caller samples and calls Finish
+	RichConnect          bool      `json:"rich_connect,omitempty"` // CONNECT with will, credentials and keep-alive (must be identical on every connection)
 	// Steer: park the reconnect goroutine inside the ConnectOption (between SetClient
 	// and BaseClient.Connect's initialisation) of connection N and run these steps meanwhile.
 	SteerConn  int    `json:"steer_conn,omitempty"`
@@ -303,6 +304,14 @@ func (d *Dialer) DialContext(ctx context.Context) (*mqtt.BaseClient, error) {
 		conn.ClosedErr = memnet.NetClosedErr
 	}
 	cli := &mqtt.BaseClient{Transport: conn}
+	if r.Sc.DialerPresetsHandler {
+		// a Dialer that hands out clients which already carry a handler of their own (a default / logging handler):
+		// what is registered on the retrying client takes precedence on every connection
+		cid := conn.ID
+		cli.Handle(mqtt.HandlerFunc(func(m *mqtt.Message) {
+			tr.Add(memnet.Event{Kind: memnet.KNote, Conn: cid, S: "dialer's preset handler got " + m.Topic + " " + string(m.Payload)})
+		}))
+	}
 	tr.Mu.Lock()
 	if r.Clients == nil {
 		r.Clients = map[int]*mqtt.BaseClient{}
